@@ -31,6 +31,7 @@ TStep == \/ Is("deepcopy") /\ Ev.i \in Trees /\ DeepCopy(Ev.i)
          \/ Is("remove_initial_equation") /\ Ev.i \in Trees /\ RemoveInitialEquation(Ev.i, Ev.c, Ev.e)
          \/ Is("add_class") /\ Ev.i \in Trees /\ AddClass(Ev.i, Ev.c)
          \/ Is("remove_class") /\ Ev.i \in Trees /\ RemoveClass(Ev.i, Ev.c)
+         \/ Is("flatten") /\ Ev.i \in Trees /\ FlattenLive(Ev.i, Ev.c)
 
 TNextTrace == /\ tid <= Len(Batch) /\ l = Len(Batch[tid]) + 1
               /\ tid' = tid + 1 /\ l' = 1
